@@ -328,29 +328,44 @@ def main(tier):
                               'case': {'n': n, 'cooked': cooked, 'prog': progs, 'maxsw': (2 if quick else 3) if n == 2 else (1 if quick else 2)}})
     # --- TLC on DTConc: all interleavings
     cfg = ('SPECIFICATION Spec\nINVARIANT Published\nINVARIANT LockDiscipline\nINVARIANT Export\nCONSTRAINT PreemptionBound\n')
-    exported = []
-    res = tlc.run('DTConc', cfg, files={'cases.json': json.dumps([c['case'] for c in cases])}, on_print=exported.append,
+    # the interleavings are streamed: all counterexamples of the machine (up to 2000 per case) and a uniform sample of the
+    # others (reservoir per case) are kept -- never the whole export, which runs to millions of schedules in the thorough tier
+    cap = 1500 if quick else 8000
+    keep_cex, keep_rest, seen_rest = {}, {}, {}
+    model_cex = 0
+
+    def on_export(e):
+        nonlocal model_cex
+        tid = e['tid']
+        if e['crash'] or e['foreign']:
+            model_cex += 1
+            lst = keep_cex.setdefault(tid, [])
+            if len(lst) < 2000:
+                lst.append(e['hist'])
+            return
+        k = seen_rest.get(tid, 0)
+        seen_rest[tid] = k + 1
+        lst = keep_rest.setdefault(tid, [])
+        if len(lst) < cap:
+            lst.append(e['hist'])
+        else:
+            j = rng.randrange(k + 1)
+            if j < cap:
+                lst[j] = e['hist']
+    res = tlc.run('DTConc', cfg, files={'cases.json': json.dumps([c['case'] for c in cases])}, on_print=on_export,
                   keep_prints=False, timeout=3000, coverage=not quick)
     if res.violated:
         raise tlc.TLCFailure('DTConc violates %s\n%s' % (res.violated, (res.error_trace or '')[:2000]))
     stats['states'] += res.distinct
     stats['transitions'] += res.generated
-    model_cex = 0
-    per_case = {}
-    for e in exported:
-        per_case.setdefault(e['tid'], []).append(e)
-    for tid, evs in per_case.items():
+    for tid in sorted(set(keep_cex) | set(keep_rest)):
         name, n, cooked, watch, solo = cases[tid - 1]['meta']
-        # counterexamples of the machine first, then the rest (sampled when there are very many)
-        cex = [e for e in evs if e['crash'] or e['foreign']]
-        model_cex += len(cex)
-        rest = [e for e in evs if not (e['crash'] or e['foreign'])]
-        cap = 1500 if quick else 20000
-        if len(rest) > cap:
-            rest = rng.sample(rest, cap)
-        for e in cex[:2000] + rest:
-            a_jobs.append((name, n, cooked, e['hist'], [tuple(w) for w in watch], solo, ulines[name]))
-            a_meta.append((tid, bool(e['crash'] or e['foreign'])))
+        for is_cex, hists in ((True, keep_cex.get(tid, [])), (False, keep_rest.get(tid, []))):
+            for h in hists:
+                a_jobs.append((name, n, cooked, h, [tuple(w) for w in watch], solo, ulines[name]))
+                a_meta.append((tid, is_cex))
+    keep_cex.clear()
+    keep_rest.clear()
     drift_a = 0
     drift_samples, rejected_samples = [], []
     for meta, ajob, r in zip(a_meta, a_jobs, common.pool_map(_replay_access, a_jobs, chunk=40, per_case=120)):
